@@ -8,7 +8,7 @@
 
 use serde_json::{json, Value};
 
-pub const NDIM: usize = 12;
+pub const NDIM: usize = 13;
 pub type Cfg = [u8; NDIM];
 
 pub const D_TYPES: usize = 0;
@@ -23,6 +23,7 @@ pub const D_COSTS: usize = 8;
 pub const D_SEATED: usize = 9;
 pub const D_TWOSEG: usize = 10;
 pub const D_EXTRALOC: usize = 11;
+pub const D_NEXTDAY: usize = 12;
 
 /// (name, number of values) per dimension
 pub const DIMS: [(&str, u8); NDIM] = [
@@ -38,6 +39,7 @@ pub const DIMS: [(&str, u8); NDIM] = [
     ("seated", 2),    // 0 capacity binding | 1 seats binding
     ("twoSeg", 2),    // 0 one-segment routes | 1 direction-0 departures run a two-segment route
     ("extraLoc", 2),  // 0 | 1 an unused third location
+    ("nextDay", 2),   // 0 all trips on one day | 1 trips of departure slot 3 run on the following day (two planning days)
 ];
 
 #[derive(Clone, Copy, Debug, PartialEq, Eq, PartialOrd, Ord, Hash)]
@@ -56,8 +58,8 @@ pub struct Inst {
 
 pub const BASE0: Cfg = [0; NDIM];
 /// a slot that overlaps / ties with the trips (local search must displace trips to use it), binding maximal distance
-pub const BASE2: Cfg = [0, 0, 0, 0, 0, 4, 1, 0, 0, 0, 0, 0];
-pub const BASE1: Cfg = [0, 0, 0, 0, 0, 2, 1, 0, 0, 0, 0, 0]; // one slot x 2 tracks, binding maximal distance
+pub const BASE2: Cfg = [0, 0, 0, 0, 0, 4, 1, 0, 0, 0, 0, 0, 0];
+pub const BASE1: Cfg = [0, 0, 0, 0, 0, 2, 1, 0, 0, 0, 0, 0, 0]; // one slot x 2 tracks, binding maximal distance
 
 /// all configurations differing from `base` in at most `k` dimensions, simplest first
 pub fn configs(base: Cfg, k: usize) -> Vec<Cfg> {
@@ -155,11 +157,12 @@ impl Inst {
     pub fn from_code(s: &str) -> Result<Inst, String> {
         let (c, t) = s.split_once(';').ok_or("bad instance code")?;
         let cv: Vec<u8> = c.split(',').map(|x| x.parse::<u8>().map_err(|e| e.to_string())).collect::<Result<_, _>>()?;
-        if cv.len() != NDIM {
+        // codes written before a dimension was added are shorter: missing dimensions are 0
+        if cv.len() > NDIM || cv.len() < 12 {
             return Err("bad cfg length".into());
         }
         let mut cfg = [0u8; NDIM];
-        cfg.copy_from_slice(&cv);
+        cfg[..cv.len()].copy_from_slice(&cv);
         let mut trips = vec![];
         for tt in t.split(',').filter(|x| !x.is_empty()) {
             let p: Vec<u8> = tt.split('.').map(|x| x.parse::<u8>().map_err(|e| e.to_string())).collect::<Result<_, _>>()?;
@@ -274,13 +277,13 @@ impl Inst {
                 (_, _) => (250, 160),
             }
         };
-        let fmt_time = |secs: i64| format!("2024-01-15T{:02}:{:02}:{:02}", secs / 3600, (secs % 3600) / 60, secs % 60);
+        let fmt_time = |secs: i64| format!("2024-01-{:02}T{:02}:{:02}:{:02}", 15 + secs / 86400, (secs % 86400) / 3600, (secs % 3600) / 60, secs % 60);
         let mut departures = vec![];
         for (i, t) in self.trips.iter().enumerate() {
             let tname = if t.vt == 0 { "A" } else { "B" };
             let rid = format!("r_{}_{}", tname, t.dir);
             let (h, m) = slot_time(t.slot);
-            let dep = (h * 3600 + m * 60) as i64;
+            let dep = (h * 3600 + m * 60) as i64 + if c[D_NEXTDAY] == 1 && t.slot == 3 { 86400 } else { 0 };
             let (pax, seated) = demand(t.dem);
             let mut segs = vec![json!({"id": format!("t{}_s0", i), "routeSegment": format!("{}_s0", rid), "departure": fmt_time(dep), "passengers": pax, "seated": seated})];
             if c[D_TWOSEG] == 1 && t.dir == 0 {
